@@ -111,12 +111,17 @@ func nilFactOn(b *ssa.BasicBlock, r ssa.Value, wantNil bool) bool {
 
 // ---- ERRPROP (flush part) -------------------------------------------------------
 
+// overwrittenAt is set by errorPropagated when the pending error is lost because control loops back to the call that
+// produced it (the returned *ssa.Return is then only a placeholder for the position).
+var overwrittenAt ssa.Instruction
+
 // errorPropagated checks that no nil-error return of fn is reachable from the
 // call `after` without taking the nil edge of a test of its error result r:
 // a search from the call that does not cross `r == nil` edges (those paths
 // are the success continuation) must reach only returns that carry r or a
 // non-nil error.
 func errorPropagated(fn *ssa.Function, after ssa.Instruction, r ssa.Value) (bool, *ssa.Return) {
+	overwrittenAt = nil
 	ei := ir.ErrorResultIndex(fn.Signature)
 	if ei < 0 {
 		return false, nil
@@ -191,6 +196,15 @@ func errorPropagated(fn *ssa.Function, after ssa.Instruction, r ssa.Value) (bool
 			seen[b] = true
 		}
 		for i := from; i < len(b.Instrs); i++ {
+			if b.Instrs[i] == after && from == 0 {
+				// back at the call itself with its previous error still pending (a loop that goes round without
+				// returning it): the next result overwrites it
+				overwrittenAt = after
+				if rets := ir.Returns(fn); len(rets) > 0 {
+					bad = rets[len(rets)-1]
+				}
+				return
+			}
 			switch x := b.Instrs[i].(type) {
 			case *ssa.Return:
 				op := x.Results[ei]
